@@ -19,6 +19,75 @@ func init() {
 	handlers["enc"] = encCmd
 	handlers["dec"] = decCmd
 	handlers["decall"] = decAllCmd
+	handlers["encfail"] = encFailCmd
+}
+
+// failStream refuses every write (a peer that has gone away)
+type failStream struct{}
+
+func (failStream) Read(p []byte) (int, error)  { return 0, io.EOF }
+func (failStream) Write(p []byte) (int, error) { return 0, errors.New("write: broken pipe") }
+func (failStream) Close() error                { return nil }
+
+func writeRec(s transfer.Stream, m any) error {
+	switch x := m.(type) {
+	case transfer.FileBegin:
+		return transfer.VerifWriteFileBegin(s, x)
+	case transfer.Credit:
+		return transfer.VerifWriteCredit(s, x)
+	case transfer.CreditBatch:
+		return transfer.VerifWriteCreditBatch(s, x)
+	case transfer.FileEnd:
+		return transfer.VerifWriteFileEnd(s, x)
+	case transfer.FileDone:
+		return transfer.VerifWriteFileDone(s, x)
+	case transfer.FileResumeInfo:
+		return transfer.VerifWriteFileResumeInfo(s, x)
+	case transfer.ResumeRequest:
+		return transfer.VerifWriteResumeRequest(s, x)
+	case transfer.DataStreams:
+		return transfer.VerifWriteDataStreams(s, x)
+	case nil:
+		return transfer.VerifWriteControlEnd(s)
+	}
+	return errors.New("unknown record")
+}
+
+// encfail <rec A> | <rec B> | <rec C> ... : A is written to a stream that refuses the write (twice, on two goroutine-free calls),
+// then B, C ... are written to a healthy stream; prints the bytes that stream received. An encoder must not carry anything over
+// from the failed write.
+func encFailCmd(a []string) string {
+	var recs [][]string
+	cur := []string{}
+	for _, w := range a {
+		if w == "|" {
+			recs = append(recs, cur)
+			cur = []string{}
+		} else {
+			cur = append(cur, w)
+		}
+	}
+	recs = append(recs, cur)
+	if len(recs) < 2 {
+		return "bad-op"
+	}
+	first, ok := parseRec(recs[0])
+	if !ok {
+		return "bad-op"
+	}
+	_ = writeRec(failStream{}, first)
+	_ = writeRec(failStream{}, first)
+	s := &bufStream{r: bytes.NewReader(nil)}
+	for _, r := range recs[1:] {
+		m, ok := parseRec(r)
+		if !ok {
+			return "bad-op"
+		}
+		if err := writeRec(s, m); err != nil {
+			return "err " + errKind(err)
+		}
+	}
+	return hx(s.w.Bytes())
 }
 
 // bufStream is an in-memory transfer.Stream: reads from r until it ends, collects writes in w.
